@@ -726,3 +726,126 @@ package readline
 //@ final macro.Engine.keys props C01 C18
 //@ final macro.Engine.hint props C01 C18
 //@ final inputrc.Config.Vars props C01 C12
+//@ final editor.Buffers.num props C01 C16 C17
+//@ final editor.Buffers.alpha props C01 C16 C17
+//@ final editor.Buffers.ro props C01 C16 C17
+//@ final history.Sources.lines props C01 C07 C09
+//@ final completion.Engine.keymap props C01 C14 C15
+//@ final completion.Engine.hint props C01 C14 C15
+//@ final completion.Engine.config props C01 C14 C15
+//@ final keymap.Engine.commands props C01 C03
+//@ final macro.Engine.macros props C01 C18
+
+// ---------------------------------------------------------------------------------------
+// C01, third batch: commands proved under a named hypothesis in addition to fullok.
+// H-HISTNAV (histready): the history navigation state the C09 contracts require (not in the middle of an undo,
+// position within the active source, sources bound under distinct names).
+//@ pred histready(rl *Shell) = history.hnav(rl.History) && history.hdistinct(rl.History) && (history.hcur(rl.History) != nil ==> rl.History.hpos <= len(history.entries(history.hcur(rl.History))))
+// H-CALLER (callerok): the command was dispatched from at least one key (Keys.Caller() is not empty).
+//@ pred callerok(rl *Shell) = len(rl.Keys.matched) > 0
+// H-INPUT (keyready): what Keys.ReadKey requires of the input stream (C05's ghost stream, nothing waiting).
+//@ pred keyready(rl *Shell) = core.Stdin != nil && !indead() && 0 <= inpos() && inpos() <= len(instream()) && !rl.Keys.waiting && len(rl.Keys.macroKeys) == 0 && core.noreports()
+
+//@ func (*Shell).beginningOfHistory
+//@   props C01
+//@   terminates
+//@   requires fullok(rl) && histready(rl)
+//@ func (*Shell).beginningOfLineHist
+//@   props C01
+//@   terminates
+//@   requires fullok(rl) && histready(rl)
+//@ func (*Shell).downHistory
+//@   props C01
+//@   terminates
+//@   requires fullok(rl) && histready(rl)
+//@ func (*Shell).downLineOrHistory
+//@   props C01
+//@   terminates
+//@   requires fullok(rl) && histready(rl)
+//@ func (*Shell).endOfHistory
+//@   props C01
+//@   terminates
+//@   requires fullok(rl) && histready(rl)
+//@ func (*Shell).endOfLineHist
+//@   props C01
+//@   terminates
+//@   requires fullok(rl) && histready(rl)
+//@ func (*Shell).upHistory
+//@   props C01
+//@   terminates
+//@   requires fullok(rl) && histready(rl)
+//@ func (*Shell).upLineOrHistory
+//@   props C01
+//@   terminates
+//@   requires fullok(rl) && histready(rl)
+//@ func (*Shell).fetchHistory
+//@   props C01
+//@   terminates
+//@   requires fullok(rl) && histready(rl)
+//@ func (*Shell).historySearchBackward
+//@   props C01
+//@   terminates
+//@   requires fullok(rl) && histready(rl)
+//@ func (*Shell).historySearchForward
+//@   props C01
+//@   terminates
+//@   requires fullok(rl) && histready(rl)
+//@ func (*Shell).historySubstringSearchBackward
+//@   props C01
+//@   terminates
+//@   requires fullok(rl) && histready(rl)
+//@ func (*Shell).historySubstringSearchForward
+//@   props C01
+//@   terminates
+//@   requires fullok(rl) && histready(rl)
+//@ func (*Shell).inferNextHistory
+//@   props C01
+//@   terminates
+//@   requires fullok(rl) && histready(rl)
+//@ func (*Shell).revertLine
+//@   props C01
+//@   terminates
+//@   requires fullok(rl) && histready(rl)
+//@ func (*Shell).saveLine
+//@   props C01
+//@   terminates
+//@   requires fullok(rl) && histready(rl)
+
+//@ func (*Shell).callLastKeyboardMacro
+//@   props C01
+//@   terminates
+//@   requires fullok(rl) && macro.mvalid(rl.Macros)
+//@ func (*Shell).endKeyboardMacro
+//@   props C01
+//@   terminates
+//@   requires fullok(rl) && macro.mvalid(rl.Macros)
+//@ func (*Shell).startKeyboardMacro
+//@   props C01
+//@   terminates
+//@   requires fullok(rl) && macro.mvalid(rl.Macros)
+
+//@ func (*Shell).viCharSearch
+//@   props C01
+//@   requires fullok(rl) && callerok(rl)
+//@ func (*Shell).viPut
+//@   props C01
+//@   requires fullok(rl) && callerok(rl) && editor.regsclean(rl.Buffers)
+//@ func (*Shell).viSelectInside
+//@   props C01
+//@   requires fullok(rl) && callerok(rl)
+
+//@ func (*Shell).deleteChar
+//@   props C01
+//@   terminates
+//@   requires fullok(rl)
+//@   loop 1 invariant fullok0(rl)
+//@ func (*Shell).viRubout
+//@   props C01
+//@   terminates
+//@   requires fullok(rl)
+//@   loop 1 invariant fullok0(rl)
+//@ func (*Shell).yankPop
+//@   props C01
+//@   terminates
+//@   requires fullok(rl) && editor.regsclean(rl.Buffers)
+//@   loop 1 invariant fullok0(rl) && editor.regsclean(rl.Buffers)
